@@ -8,7 +8,8 @@ every track ever placed in a slot, `finished` = every track whose slot was relea
 overwritten in place, `pendL` = identities of the `ni` valid initializers, `liveL` = identities
 in the occupied slots.
 -/
-import CelerVerif.Lemmas.TrackInitStep2
+import CelerVerif.Lemmas.TrackInitReach
+import CelerVerif.Lemmas.TrackInitITC3
 
 namespace CelerVerif.TrackInit
 
@@ -117,14 +118,25 @@ theorem initTracks_none_loop {cfg : Cfg} {s0 : State} (hord : cfg.order = .none)
     ITInv cfg s0 k ((List.range k).foldl (initTrack s0.c n) s) :=
   it_loop_none hord hn1 hn2 hni hvlen hvnd hvlt k hk h0
 
-/-- InitializeTracks as a whole, TrackOrder::none: from the between-steps invariant (after the
+/-- initTracks_injective (TrackOrder::init_charge): with the index array stably partitioned by
+    neutrality (`std::stable_partition` = `filter p ++ filter ¬p`), the thread at position `p`
+    takes initializer `indices[p] + numInit - n` (a permutation of the last `n`) into vacancy
+    `index_partitioned` (`p` for neutral ones, `numVac - n + p` for charged ones: injective,
+    `vIdxOf_inj`); all target slots are distinct and empty, nothing else is written, and the
+    accounting invariant is preserved. -/
+theorem initTracks_charge_loop {cfg : Cfg} {s1 : State} (hord : cfg.order = .initCharge) {n : Nat}
+    (hn1 : n ≤ s1.c.numVacancies) (hn2 : n ≤ s1.c.numInitializers)
+    (hvlen : s1.c.numVacancies ≤ s1.vacancies.length) (hvnd : s1.vacancies.Nodup)
+    (hvlt : ∀ v ∈ s1.vacancies, v < cfg.slots)
+    (hidx : ∀ p, p < n → s1.indices.getD p 0 = piOf s1 n p)
+    (t : Nat) (ht : t ≤ n) {s : State} (h0 : ITInvC cfg s1 n 0 s) :
+    ITInvC cfg s1 n t ((List.range t).foldl (initTrack s1.c n) s) :=
+  it_loop_charge hord hn1 hn2 hvlen hvnd hvlt hidx t ht h0
+
+/-- InitializeTracks as a whole, BOTH track orders: from the between-steps invariant (after the
     primaries were queued) it starts exactly `min(vacancies, initializers)` tracks, keeps the
-    accounting invariant, and `num_active`, `num_vacancies`, `num_initializers` are exact
-    (progress: if queued > 0 and vacancies > 0 the step initialises the minimum of the two).
-    PARTIAL with respect to the property: the same statement for TrackOrder::init_charge (stable
-    partition of the index array, `index_partitioned`) is not proved; that order is covered by the
-    order-generic theorems above/below and by the correspondence runs only. -/
-theorem initializeTracks_spec_order_none_partial {cfg : Cfg} {s : State} (hord : cfg.order = .none)
+    accounting invariant, and `num_active`, `num_vacancies`, `num_initializers` are exact. -/
+theorem initializeTracks_spec (cfg : Cfg) {s : State}
     (hL : Lens cfg s) (hC : Core s s.c.numInitializers) (hcap : s.c.numInitializers ≤ cfg.capacity)
     (hvac : s.vacancies = (List.range cfg.slots).filter
       (fun i => !(s.slots.getD i Slot.empty).active))
@@ -137,7 +149,61 @@ theorem initializeTracks_spec_order_none_partial {cfg : Cfg} {s : State} (hord :
       = s.c.numVacancies - min s.c.numVacancies s.c.numInitializers ∧
     (initializeTracks s).pending = s.pending ∧
     (initializeTracks s).c.numGenerated = s.c.numGenerated :=
-  it_spec_none hord hL hC hcap hvac hnvac hst hocc
+  itSpec_all cfg s hL hC hcap hvac hnvac hst hocc
+
+/-- ★ the invariant holds in EVERY state the Stepper protocol can reach: construction, any
+    number of steps with or without new primaries (any events < max_events, any number in
+    flight), any per-step physics outcome, reset at any time including after a failed capacity
+    check, reseed at idle states; every slot count, every capacity, both track orders.
+    Induction over the derivation (= over the op sequence), no bound. -/
+theorem inv_reachable {cfg : Cfg} {s : State} (h : Reachable cfg s) : Inv cfg s :=
+  inv_of_reachable (itSpec_all cfg) h
+
+/-- ★ transported_once for reachable states, with the vacancy list and uniqueness -/
+theorem reachable_transported_once {cfg : Cfg} {s : State} (h : Reachable cfg s) :
+    s.created.Perm (s.started ++ pendL s.initializers s.c.numInitializers) ∧
+    s.started.Perm (liveL s.slots ++ s.finished) ∧
+    ((liveL s.slots ++ s.finished ++ pendL s.initializers s.c.numInitializers).map Rec.key).Nodup ∧
+    s.vacancies = (List.range cfg.slots).filter (fun i => !(s.slots.getD i Slot.empty).active) ∧
+    s.vacancies.Pairwise (· < ·) ∧
+    (liveL s.slots).length + s.c.numVacancies = cfg.slots := by
+  have hI := inv_reachable h
+  obtain ⟨h1, h2⟩ := transported_once hI.core
+  refine ⟨h1, h2, (unique_ids hI.core).1, hI.vac, ?_, hI.occupied⟩
+  rw [hI.vac]
+  exact List.Pairwise.sublist List.filter_sublist List.pairwise_lt_range
+
+/-- ★ counters_exact: after every successful Stepper call from a reachable state the reported
+    counters are the true numbers: `generated` = primaries handed in, `active` = occupied slots
+    right after InitializeTracks, `alive` = occupied slots at the end, `queued` = pending
+    initializers (whose identities are accounted for by `reachable_transported_once`), and
+    `num_vacancies` = empty slots.
+    progress: `active` = previously alive + min(vacancies, queued + new primaries), i.e. if
+    queued > 0 and vacancies > 0 the step initialises the minimum of the two. -/
+theorem counters_exact {cfg : Cfg} {s s' : State} (h : Reachable cfg s) (ps : List Primary)
+    (hps : ∀ p ∈ ps, p.ev < cfg.maxEvents) (o : List Outcome) (ho : OracleOk o)
+    (hstep : stepAny ps o s = .ok s') :
+    (result s').generated = ps.length ∧
+    (result s').alive = (liveL s'.slots).length ∧
+    (result s').active = (liveL s.slots).length
+      + min s.c.numVacancies (s.c.numInitializers + ps.length) ∧
+    (result s').queued = (pendL s'.initializers s'.c.numInitializers).length ∧
+    (result s').queued ≤ cfg.capacity ∧
+    (liveL s'.slots).length + s'.c.numVacancies = cfg.slots := by
+  have hI := inv_reachable h
+  have hk := (stepAny_spec (itSpec_all cfg) hI ps hps o ho).1 s' hstep
+  refine ⟨?_, hk.alive, hk.started, ?_, hk.inv.cap, hk.inv.occupied⟩
+  · have := hk.gen; simpa [result] using this
+  · have := hk.inv.core.ni_le
+    simp [result, pendL]; omega
+
+/-- a failed Stepper call leaves a state from which `reset` re-establishes the invariant; the
+    failure is always the capacity error raised before any write (see
+    `extendFromSecondaries_spec`, `insertPrimaries_checked`) -/
+theorem failed_step_recoverable {cfg : Cfg} {s s' : State} {e : Err} (h : Reachable cfg s)
+    (ps : List Primary) (hps : ∀ p ∈ ps, p.ev < cfg.maxEvents) (o : List Outcome)
+    (ho : OracleOk o) (hstep : stepAny ps o s = .error (e, s')) : Inv cfg (reset s') :=
+  inv_reachable (Reachable.resetAfterError ps o h hps ho hstep)
 
 /-- pre-step, any physics outcome and the tracking cut neither create nor lose a track -/
 theorem physics_keeps_tracks {cfg : Cfg} {s : State} {ni : Nat} (hL : Lens cfg s) (hC : Core s ni)
@@ -205,6 +271,14 @@ example : (match exRun with
     | .ok s => (s.created.length, s.started.length, s.finished.length, s.c.numInitializers,
                 s.vacancies, result s)
     | .error _ => (0, 0, 0, 0, [], ⟨0, 0, 0, 0⟩)) = (5, 3, 1, 2, [], ⟨3, 2, 2, 2⟩) := by decide
+
+example : ∀ s', exRun = .ok s' → Reachable exCfg s' ∧ Inv exCfg s' := by
+  intro s' h
+  have hr : Reachable exCfg s' :=
+    Reachable.step [⟨0, 0, 1⟩, ⟨0, 0, 2⟩, ⟨0, 1, 3⟩] [⟨.alive, []⟩, ⟨.killed, [⟨true, 0⟩, ⟨true, 1⟩]⟩]
+      Reachable.init (by decide)
+      (by intro x hx; simp at hx; rcases hx with rfl | rfl <;> simp) h
+  exact ⟨hr, inv_reachable hr⟩
 
 example : Inv exCfg (reset (State.init exCfg)) :=
   reset_reestablishes_invariant
